@@ -284,3 +284,88 @@ Theorem C06_null_root_needs_care :
 Proof. exact so_conforms_as_stated_refuted. Qed.
 Print Assumptions C06_null_root_needs_care.
 
+
+(* ---- C06, third sentence: "No operation on valid inputs fails for any reason other than a
+   reported conflict" (Proofs/NoOtherFailure.v): at every reachable state an update with an
+   admissible object (duplicates allowed) succeeds, an apply of an admissible configuration
+   succeeds or -- when not forced -- is refused with a non-empty list of conflicts and leaves
+   the state as it is; an error is never EOther or EPanic. ---- *)
+From Coq Require Import List ZArith String Bool Arith Lia.
+From SMD Require Import Model.Value Model.Order Model.PathElem Model.PathSet Model.Schema Model.Walk
+  Model.Validate Model.FieldSet Model.Remove Model.Merge Model.Compare Model.Matcher Model.Reconcile
+  Model.Updater
+  Spec.PathsAsSets Spec.RefValid Spec.Resolve Spec.Agree Spec.RefDiff Spec.Examples
+  Proofs.OrderLaws Proofs.PathSetLaws Proofs.SchemaOk Proofs.FieldSetBase Proofs.FieldSetPaths
+  Proofs.FieldSetWf Proofs.FieldSetLaws Proofs.RemoveAbsent Proofs.RemoveWf Proofs.ResolveLaws
+  Proofs.UpdaterLaws Proofs.UpdaterLaws2 Proofs.MergeLaws Proofs.MergeAgree
+  Proofs.RemoveFrame Proofs.EnLaws Proofs.NodeSet Proofs.KeyFields Proofs.VeqbResolve
+  Proofs.SetCheckers Proofs.ApplyEffect Proofs.RefDiffBoth Proofs.RefDiffLaws Proofs.RefDiffPresent
+  Proofs.ApplyInv Proofs.History Proofs.Reapply Proofs.ConflictsApply.
+From SMD Require Import Proofs.CompareLaws Proofs.ReconcileTotal.
+From SMD Require Import Proofs.NoOtherFailure.
+Theorem C06_update_succeeds :
+  forall (c : config) (R : typeref -> Prop) (ver : string) (live : value) 
+           (mf : managed) (mgr : string) (obj : value),
+         setting_ok c R ver ->
+         state_ok c ver live mf ->
+         op_ok c ver (HUpdate mgr obj) ->
+         exists (o : tv) (mf' : managed),
+           update_op c (ver, live) (ver, obj) ver mf mgr = UOk (o, mf').
+Proof. exact update_succeeds. Qed.
+Print Assumptions C06_update_succeeds.
+
+Theorem C06_apply_fails_only_with_conflicts :
+  forall (c : config) (R : typeref -> Prop) (ver : string) (live : value) 
+           (mf : managed) (mgr : string) (cfg : value) (force : bool),
+         setting_ok c R ver ->
+         state_ok c ver live mf ->
+         op_ok c ver (HApply mgr cfg force) ->
+         (exists (o : option tv) (mf' : managed),
+            apply_op c (ver, live) (ver, cfg) ver mf mgr force = UOk (o, mf')) \/
+         force = false /\
+         (exists cs : list (string * path),
+            cs <> nil /\ apply_op c (ver, live) (ver, cfg) ver mf mgr force = UErr (EConflict cs)).
+Proof. exact apply_fails_only_with_conflicts. Qed.
+Print Assumptions C06_apply_fails_only_with_conflicts.
+
+Theorem C06_no_other_failure_along_every_history :
+  forall (c : config) (R : typeref -> Prop) (ver : string) (ops : list hop) (o : hop),
+         setting_ok c R ver ->
+         Forall (op_ok c ver) ops -> op_ok c ver o -> step_outcome_ok c ver (run c ver ops) o.
+Proof. exact no_other_failure_along_histories. Qed.
+Print Assumptions C06_no_other_failure_along_every_history.
+
+Theorem C06_errors_are_conflicts_along_every_history :
+  forall (c : config) (R : typeref -> Prop) (ver : string) (ops : list hop) 
+           (o : hop) (e : uerr),
+         setting_ok c R ver ->
+         Forall (op_ok c ver) ops ->
+         op_ok c ver o ->
+         step_error c ver (run c ver ops) o = Some e ->
+         (exists cs : list (string * path), e = EConflict cs /\ cs <> nil) /\
+         (exists (mgr : string) (cfg : value), o = HApply mgr cfg false) /\
+         hstep c ver (run c ver ops) o = run c ver ops.
+Proof. exact errors_are_conflicts_along_histories. Qed.
+Print Assumptions C06_errors_are_conflicts_along_every_history.
+
+Theorem C06_no_other_failure_example :
+  Forall (op_ok ex_config "v1") nx_ops /\
+         fst (run ex_config "v1" nx_ops) = nx_obj1 /\
+         step_outcome_ok ex_config "v1" (run ex_config "v1" hx_ops) (HUpdate "e" nx_obj1) /\
+         step_outcome_ok ex_config "v1" (run ex_config "v1" nx_ops) (HUpdate "f" nx_obj2) /\
+         step_outcome_ok ex_config "v1" (run ex_config "v1" hx_ops) (HApply "b" hx_cfg true) /\
+         step_outcome_ok ex_config "v1" (run ex_config "v1" hx_ops) (HApply "b" hx_cfg false) /\
+         step_outcome_ok ex_config "v1" (run ex_config "v1" hx_ops) (HApply "c" nx_cfg false) /\
+         update_op ex_config ("v1", hx_obj) ("v1", nx_obj1) "v1" hx_mf "e" =
+         UOk ("v1", nx_obj1, snd (run ex_config "v1" nx_ops)) /\
+         (exists mf' : managed,
+            update_op ex_config ("v1", nx_obj1) ("v1", nx_obj2) "v1"
+              (snd (run ex_config "v1" nx_ops)) "f" = UOk ("v1", nx_obj2, mf')) /\
+         apply_op ex_config ("v1", hx_obj) ("v1", hx_cfg) "v1" hx_mf "b" false =
+         UErr (EConflict (("a", PEField "aa" :: nil) :: nil)) /\
+         (exists (o : tv) (mf' : managed),
+            apply_op ex_config ("v1", hx_obj) ("v1", nx_cfg) "v1" hx_mf "c" false =
+            UOk (Some o, mf')).
+Proof. exact no_other_failure_example. Qed.
+Print Assumptions C06_no_other_failure_example.
+
